@@ -18,7 +18,7 @@ import time
 
 ID = 'C18'
 LEVEL = 'model_checking'
-RULE = ('explicit enumeration of ALL histories of length <= depth over 8 (deck, options) items chosen to collide '
+RULE = ('explicit enumeration of ALL histories of length <= depth over 9 (deck, options) items chosen to collide '
         '(identical cell / surface numbers with different geometry, universe and lattice decks, a deck that '
         'fails midway, the same deck under other options); each history runs in one fresh interpreter and every '
         'step is compared byte-for-byte (header removed) with the golden output of the item from a fresh '
@@ -134,6 +134,20 @@ ITEMS['h'] = ("""deck h: like but, flags
 
 m1 13027 1
 """, ['--skip-deduplication'])
+ITEMS['i'] = ("""deck i: several implicit surfaces 1000*cell+surf whose conversions allocate auxiliary ids
+5 0 -1 -2 trcl=(1 0 0) imp:n=1
+6 0 -3 4 trcl=(0 2 0 0 1 0 -1 0 0 0 0 1) imp:n=1
+12 0 -4 trcl=(0 0 -3) imp:n=1
+7 0 (5001:5002) (6003:-6004) 12004 -9 imp:n=1
+8 0 9 imp:n=0
+
+1 kz -2 0.5 1
+2 rcc 0 0 0 0 0 3 1
+3 kx 4 0.25 -1
+4 so 0.5
+9 so 30
+
+""", [])
 NAMES = sorted(ITEMS)
 
 WORKER = r'''
